@@ -9,6 +9,71 @@ For every transform class, over ℝ, for every parameter vector inside the decla
 * `X.jacobian_spec` on the set where `_jacobian` returns a number (its `np.where` guard) that number is
                     `X.jac p x`, it is positive and it is the derivative of the forward formula;
 * `X.strictMonoOn`  the forward formula is strictly increasing on the domain.
+
+Clause → theorems → what remains outside (same table as harness/registry.d/C02.json "clauses"):
+
+* for every transform (12 scalar classes) and admissible parameters, jacobian(x) equals the derivative of forward at
+  x [to 1e-4 relative]
+    theorems: Identity.hasDerivAt, Logit.hasDerivAt, Log.hasDerivAt, BoxCox2.hasDerivAt, BoxCox1lam.jacobian_spec,
+              BoxCox1nu.jacobian_spec, BoxCox2sym.hasDerivAt_of_pos, BoxCox2sym.hasDerivAt_of_neg,
+              BoxCox2sym.hasDerivAt_zero, BoxCox2sym.hasDerivAt, YeoJohnson.hasDerivAt, LogSinh.hasDerivAt,
+              Reciprocal.hasDerivAt, Sinh.hasDerivAt, Manly.hasDerivAt, X.jacobian_spec (every class: the number
+              `jacobian` returns on its guard is that derivative), LogSinh.forward_eq, Reciprocal.forward_eq
+    outside:  exact over the reals, every branch and every admissible parameter vector; the 1e-4 allowance and IEEE
+              rounding are carried by the correspondence (Float model, propagated bound) and the finite-difference
+              oracle. Yeo-Johnson is stated at every x with nu + scale x != EPS (the property's quantifier excludes
+              the switch point)
+
+* for Softmax, jacobian is the determinant of the matrix of partial derivatives
+    theorems: Softmax.partial_derivatives, Softmax.det_partial_derivatives, Softmax.jacobian_eq_det,
+              Softmax.jacobian_spec, Softmax.pdDet_eq_det, Softmax.pdDet_eq_jacRow, Softmax.jacobianM_eq
+    outside:  every row length n (matrix determinant lemma); the determinant the driver executes (Laplace expansion
+              on nested lists) is proved equal to Matrix.det; floating point by correspondence (FD matrix of the
+              real forward vs model entries, numpy det vs jacobian)
+
+* jacobian is strictly positive on the domain
+    theorems: Identity.jac_pos, Logit.jac_pos, Log.jac_pos, Log.bf_pos, Log.jac_neg_of_base_lt_one, BoxCox2.jac_pos,
+              BoxCox2sym.jac_pos, YeoJohnson.jac_pos, LogSinh.jac_pos, Reciprocal.jac_pos, Sinh.jac_pos,
+              Manly.jac_pos, Softmax.jacRow_pos, Softmax.partial_pos, X.jacobian_spec
+    outside:  Log needs log(base) > 0: for 0 < base < 1 the Jacobian is proved negative (known finding
+              Log/positive/base_below_one). In doubles Sinh's Jacobian underflows to 0 for |u| > 1.34e154 (known
+              finding Sinh/positive/u_squared_overflow) - not expressible over the reals
+
+* NaN outside the domain via np.where (anchor): the domain of jacobian is its guard
+    theorems: Logit.jacobian_none, Log.jacobian_none, BoxCox2.jacobian_none, BoxCox1lam.jacobian_none,
+              BoxCox1nu.jacobian_none, BoxCox2sym.jacobian_none, LogSinh.jacobian_none, Reciprocal.jacobian_none,
+              Logit.jdom_dom, Log.dom_of_jdom, BoxCox2.dom_of_jdom
+    outside:  nothing; unguarded classes (Identity, Yeo-Johnson, Sinh, Manly) have no NaN branch
+
+* equivalently forward is strictly increasing: x1 < x2 implies forward(x1) <= forward(x2), equality only within
+  rounding; all ordered pairs of domain points
+    theorems: Identity.strictMono, Logit.strictMonoOn, Log.strictMonoOn, BoxCox2.strictMonoOn,
+              BoxCox1lam.strictMonoOn, BoxCox1nu.strictMonoOn, BoxCox2sym.strictMono_of, BoxCox2sym.strictMono,
+              BoxCox2sym.strictMono_nu_zero, YeoJohnson.strictMonoOn_pos, YeoJohnson.strictMonoOn_neg,
+              YeoJohnson.forward_lt_add, YeoJohnson.fwd_lam_one, YeoJohnson.strictMono_lam_one,
+              YeoJohnson.not_strictMono_lam_three, LogSinh.strictMonoOn, Reciprocal.strictMonoOn, Sinh.strictMono,
+              Manly.strictMono
+    outside:  strict over the reals on each domain, across the junction for BoxCox2sym; for Yeo-Johnson across w =
+              EPS only up to 3 EPS^2 (proved necessary: not_strictMono_lam_three) - that allowance and float
+              equality 'within rounding' are judged by the ordered-pair oracle with the evaluation-error slack
+
+* all parameter vectors as in C01 - including objects reused across parameter re-assignments (any history), unset
+  constants
+    theorems: BoxCox1lam.state_jacobian_eq, BoxCox1nu.state_jacobian_eq, BoxCox2sym.state_jacobian_eq,
+              BoxCox1lam.state_jacobianArr_eq, BoxCox1nu.state_jacobianArr_eq, BoxCox2sym.state_jacobianArr_eq,
+              BoxCox1lam.jacobianArr_after_forwardArr, LogSinh.state_jacobianArr_eq, Manly.state_jacobianArr_eq,
+              BoxCox1lam.state_jacobian_unset, BoxCox1nu.state_jacobian_unset, LogSinh.state_jacobian_unset,
+              LogSinh.state_jacobian_set, Manly.state_jacobian_unset, Manly.state_jacobian_set, Manly.jac_lam_zero
+    outside:  the theorems quantify over an arbitrary object state (= any history); Vector clipping of assigned
+              values is C12's (values are read back from the object); copy.deepcopy / pickle of a Transform raise
+              inside Vector on the pinned tree (outside C02; the history stream clones by rebuilding from
+              constructor options + values)
+
+* rejected input (Softmax: negative entry, row sum > 1 - EPS, more than two dimensions)
+    theorems: Softmax.jacobian_rejects, Softmax.jacobianND_spec
+    outside:  dutils.cast (result cast back to the type of the input: 2-D shape kept, python float -> float, int /
+              float32 arrays rejected with TypeError) is observed by the glue stream against the model's values, not
+              modelled in Lean
 -/
 import HydroVerif.Lemmas.C02
 import HydroVerif.Lemmas.C02Softmax
